@@ -81,7 +81,9 @@ func (b *Bytes) Slice(start, end int64) (Blob, error) {
 	}
 	buf := make([]byte, end-start)
 	b.mu.Lock()
-	copy(buf, b.bytes)
+	if start <= int64(len(b.bytes)) {
+		copy(buf, b.bytes[start:]) // copies at most len(buf) = end-start bytes
+	}
 	b.mu.Unlock()
 	return NewBytes(buf), nil
 }
